@@ -12,6 +12,10 @@
      C13_no_lost_wakeup     a thread is in the wait set of resizeCond only while
                             the flag is set or the broadcast is still to come
      C13_no_deadlock        while some thread is unfinished, some thread can step
+     C13_critical_sections  the holder of a bucket lock is never blocked and releases
+                            it within cs_bound of its own steps (at most 6 + the
+                            number of counter stripes): waiting for a bucket lock
+                            is waiting for a thread that can run
      C13_instance           the hypotheses hold for the numbers of the source
 
    The visitor of Range and the evicted callback run outside every lock:
@@ -70,6 +74,17 @@ Theorem C13_no_deadlock :
     exists u, @enabled K V eqd hash idx tag nslots seeds g sh probe nstripes minlen grow_only s u = true.
 Proof. exact @no_deadlock_proof. Qed.
 Print Assumptions C13_no_deadlock.
+
+Theorem C13_critical_sections :
+  forall (K V : Type) (eqd : forall a b : K, {a = b} + {a <> b}) hash idx tag nslots seeds g sh probe nstripes minlen grow_only,
+    xhyps idx nstripes minlen -> forall len0 todo sched t tab b, 0 < len0 ->
+    let s := run K V eqd hash idx tag nslots seeds g sh probe nstripes minlen grow_only len0 todo sched in
+    holds hash idx nslots nstripes s (g_pc s t) = Some (tab, b) ->
+    exists s' ls, @step_pc K V eqd hash idx tag nslots seeds g sh probe nstripes minlen grow_only s t (g_pc s t) = Some (s', ls)
+      /\ (holds hash idx nslots nstripes s' (g_pc s' t) = None
+          \/ cs_bound nslots nstripes s' (g_pc s' t) < cs_bound nslots nstripes s (g_pc s t)).
+Proof. exact @cs_bounded_proof. Qed.
+Print Assumptions C13_critical_sections.
 
 (* the hypotheses are met by the instance CORR-sched runs against the code *)
 Theorem C13_instance : forall hint, xhyps idx_mapof nstripes_x (minlen_of_hint true hint).
